@@ -31,11 +31,51 @@ QXmppElement::~QXmppElement() { }
 QXmppElement &QXmppElement::operator=(const QXmppElement &) { return *this; }
 void QXmppElement::toXml(QXmlStreamWriter *) const { }
 
+// Value source.  Normally every call yields a fresh symbolic value.  With the pool switched on, the values are recorded and can be
+// replayed, so that two messages can be built from the SAME values without copying a message (the compiler-generated copy of
+// QXmppMessagePrivate moves its small members through memcpy, after which they are no longer constants for symex).
+static QString *c17_spool[32];
+static int c17_ipool[4];
+static QDateTime *c17_dpool[2];
+static unsigned c17_sn, c17_si, c17_in, c17_ii, c17_dn, c17_di;
+static bool c17_pool_on;
+static void c17_pool_replay() { c17_si = 0; c17_ii = 0; c17_di = 0; }
 static QString c17Str(unsigned n)
 {
+    if (c17_pool_on && c17_si < c17_sn) {
+        return *c17_spool[c17_si++];
+    }
     QString s;
     vp_c17_str(&s, n);
+    if (c17_pool_on) {
+        c17_spool[c17_sn++] = new QString(s);
+        c17_si = c17_sn;
+    }
     return s;
+}
+static int c17Int()
+{
+    if (c17_pool_on && c17_ii < c17_in) {
+        return c17_ipool[c17_ii++];
+    }
+    int v = vp_int();
+    if (c17_pool_on) {
+        c17_ipool[c17_in++] = v;
+        c17_ii = c17_in;
+    }
+    return v;
+}
+static void c17Dt(QDateTime *out)
+{
+    if (c17_pool_on && c17_di < c17_dn) {
+        *out = *c17_dpool[c17_di++];
+        return;
+    }
+    vp_c17_sym_datetime(out);
+    if (c17_pool_on) {
+        c17_dpool[c17_dn++] = new QDateTime(*out);
+        c17_di = c17_dn;
+    }
 }
 enum Part { PUB, SENS, BOTH, PUBONLY };
 struct C17Trees {
@@ -243,7 +283,7 @@ FIELD(stamp, SENS, 1, u"delay", ns_delayed_delivery)
 SET(stamp)
 {
     QDateTime dt;
-    vp_c17_sym_datetime(&dt);
+    c17Dt(&dt);
     m.setStamp(dt);
 }
 CHK(stamp) { vp_assert(r.stamp() == m.stamp(), "C17 (iii) stamp restored"); }
@@ -264,7 +304,7 @@ FIELD(bob, SENS, 1, u"data", ns_bob)
 SET(bob)
 {
     QXmppBitsOfBinaryData d;
-    d.setMaxAge(vp_int());
+    d.setMaxAge(c17Int());
     QXmppBitsOfBinaryDataList l;
     l << d;
     m.setBitsOfBinaryData(l);
@@ -601,28 +641,10 @@ extern "C" void h_envelope()
     vp_assert(kf || vp_c17_unknown() == 0, "C17 (iii) every element of each part is recognised when that part is parsed in its own mode");
     chk_all(m, r, true, !kf);
 }
-// non-interference, public part: ANY combination of whitelisted fields, then ANY combination of sensitive fields on top:
-// the public serialization does not change (tree equality including the stanza attributes)
-extern "C" void h_ni_public()
+// ---- non-interference.  The messages live on the heap and are never destroyed: destructors of list members whose presence is
+// symbolic would only add loops that symex cannot bound.
+static void add_any_sensitive(QXmppMessage &m)
 {
-    QXmppMessage p;
-    c17_base(p);
-    if (vp_bool()) { set_e2ee_fallback_body(p); }
-    if (vp_bool()) { set_private_msg(p); }
-    unsigned hints = vp_u8() & 15u;
-    for (unsigned i = 0; i < 4; i++) {
-        if (hints & (1u << i)) {
-            p.addHint(QXmppMessage::Hint(1u << i));
-        }
-    }
-    if (vp_case_bool(0)) { set_stanza_id(p); }   // list-valued fields: presence is a structural case (VP_CASE bit), not a symbolic flag
-    if (vp_bool()) { set_origin_id(p); }
-    if (vp_bool()) { set_mix_jid(p); }
-    if (vp_bool()) { set_mix_nick(p); }
-    if (vp_bool()) { set_eme(p); }
-    if (vp_case_bool(1)) { set_fallback_marker(p); }
-    QXmppMessage m(p);
-    m.setCarbonForwarded(false);   // detach the copy here, under concrete control flow
     if (vp_bool()) { set_body(m); }
     if (vp_bool()) { set_subject(m); }
     if (vp_bool()) { set_thread(m); }
@@ -647,27 +669,9 @@ extern "C" void h_ni_public()
     if (vp_bool()) { set_file_sources(m); }
     if (vp_bool()) { set_reply(m); }
     if (vp_bool()) { set_call_invite_(m); }
-    QDomElement a, b;
-    {
-        VpWriter w;
-        p.toXml(w.writer(), QXmpp::ScePublic);
-        a = w.root();
-    }
-    {
-        VpWriter w;
-        m.toXml(w.writer(), QXmpp::ScePublic);
-        b = w.root();
-    }
-    vp_assert(vp_dom_equal(&a, &b), "C17 (i) the public part does not depend on any sensitive field (non-interference)");
 }
-// non-interference, sensitive part: every sensitive field set, ANY combination of whitelisted fields on top
-extern "C" void h_ni_sensitive()
+static void add_any_public(QXmppMessage &m)
 {
-    QXmppMessage s;
-    c17_base(s);
-    set_all_sensitive(s);
-    QXmppMessage m(s);
-    m.setCarbonForwarded(false);
     if (vp_bool()) { set_e2ee_fallback_body(m); }
     if (vp_bool()) { set_private_msg(m); }
     unsigned hints = vp_u8() & 15u;
@@ -681,19 +685,56 @@ extern "C" void h_ni_sensitive()
     if (vp_bool()) { set_mix_jid(m); }
     if (vp_bool()) { set_mix_nick(m); }
     if (vp_bool()) { set_eme(m); }
-    QDomElement a, b;
-    {
-        VpWriter w;
-        s.toXml(w.writer(), QXmpp::SceSensitive);
-        a = w.root();
-    }
-    {
-        VpWriter w;
-        m.toXml(w.writer(), QXmpp::SceSensitive);
-        b = w.root();
-    }
-    vp_assert(vp_dom_equal(&a, &b), "C17 (ii) the sensitive part does not depend on any whitelisted field (fallback markers aside)");
 }
+static void c17_ni_base(QXmppMessage &x, bool publicPart, bool baseFull)
+{
+    c17_base(x);
+    if (baseFull) {
+        if (publicPart) {
+            set_all_public(x);
+        } else {
+            set_all_sensitive(x);
+            set_fallback_marker(x);
+        }
+    }
+}
+static void c17_ni(bool publicPart, bool baseFull)
+{
+    c17_pool_on = true;
+    QXmppMessage *p = new QXmppMessage;
+    c17_ni_base(*p, publicPart, baseFull);
+    c17_pool_replay();
+    QXmppMessage *m = new QXmppMessage;   // same values again (no copy of the message, see the value pool)
+    c17_ni_base(*m, publicPart, baseFull);
+    c17_pool_on = false;
+    if (publicPart) {
+        add_any_sensitive(*m);
+    } else {
+        add_any_public(*m);
+    }
+    vp_c17_phase();
+    QXmpp::SceMode mode = publicPart ? QXmpp::ScePublic : QXmpp::SceSensitive;
+    QDomElement a, b;
+    VpWriter *w1 = new VpWriter, *w2 = new VpWriter;
+    p->toXml(w1->writer(), mode);
+    a = w1->root();
+    vp_c17_phase();
+    m->toXml(w2->writer(), mode);
+    b = w2->root();
+    vp_c17_phase();
+    bool eq = vp_dom_equal(&a, &b);
+    vp_assert(publicPart ? eq : true, "C17 (i) the public part does not depend on any sensitive field (non-interference)");
+    vp_assert(publicPart ? true : eq, "C17 (ii) the sensitive part does not depend on any whitelisted field (non-interference; fallback markers are shared)");
+    unsigned n = vp_c17_nch(&b);
+    unsigned expect = !baseFull ? 0 : (publicPart ? C17_NPUB_ALLSET : C17_NSENS_ALLSET);
+    vp_assert(n == expect, "C17 (i)(ii) number of elements of the part");
+}
+// public part: every whitelisted field set / none set, ANY combination of sensitive fields on top
+extern "C" void h_ni_public_full() { c17_ni(true, true); }
+extern "C" void h_ni_public_empty() { c17_ni(true, false); }
+// sensitive part: every sensitive field set / none set, ANY combination of whitelisted fields on top
+extern "C" void h_ni_sensitive_full() { c17_ni(false, true); }
+extern "C" void h_ni_sensitive_empty() { c17_ni(false, false); }
 
 #ifdef C17_DEBUG
 extern "C" void h_dbg1() { QXmppMessage m; c17_base(m); set_body(m); C17Trees t; c17_serialize(m, t); }
